@@ -74,6 +74,7 @@ def do_run(dirs, tier, checks):
         return 2
     results = []
     for d in dirs:
+        d = os.path.abspath(d)
         name = os.path.basename(d.rstrip("/"))
         meta = json.load(open(os.path.join(d, "meta.json")))
         pids = checks or [meta["property"]]
